@@ -80,7 +80,7 @@ def solo(case, k):
 
 class C18(Prop):
     ID = "C18"
-    QUICK = 250
+    QUICK = 350
     THOROUGH = 6000
     RULE = ("case = reference world + 2-3 validator objects built over VARIANTS of it that collide on every key a "
             "shared cache could use (same base URI, identical $ref strings designating different definitions, same "
